@@ -259,7 +259,7 @@ INVARIANT OncePerAgent
 INVARIANT Bounded
 CHECK_DEADLOCK FALSE
 """, quick={"Agents": '"a1", "m1", "p1"', "TTL0s": "TTLsA", "MaxDup": 1},
-    thorough={"Agents": '"a1", "a2", "m1", "p1"', "TTL0s": "TTLsB", "MaxDup": 1}, timeout=6000)
+    thorough={"Agents": '"a1", "a2", "m1", "p1"', "TTL0s": "TTLsA", "MaxDup": 2}, timeout=6000)
 
 
 def agents_tv_stage(ctx):
@@ -450,7 +450,7 @@ CHECK_DEADLOCK FALSE
 """
 mc_cluster = mc_stage("MC_Cluster", MCC_CFG,
                       quick={"Nodes": "n1, n2", "MaxLog": 3, "MaxCrashes": 1, "MaxBackups": 1},
-                      thorough={"Nodes": "n1, n2, n3", "MaxLog": 2, "MaxCrashes": 1, "MaxBackups": 0}, timeout=7000)
+                      thorough={"Nodes": "n1, n2, n3", "MaxLog": 3, "MaxCrashes": 1, "MaxBackups": 1}, timeout=7000)
 
 RULE_CLUSTER = ("MC: Cluster.tla (committed log, per-node durable store / volatile caches / raft applied index, "
                 "ApplyCompute and ApplyPersist as separate steps, Crash at any point, Restart with replay filter, raft snapshot + compaction, "
